@@ -415,7 +415,9 @@ static RING_FAMILY: std::sync::atomic::AtomicBool = std::sync::atomic::AtomicBoo
 
 fn relevant(sig: &str) -> bool {
     let c13 = ["transfer.ring.", "transfer.resume.", "transfer.reconnect.", "transfer.advance."].iter().any(|p| sig.starts_with(p));
-    if sig.starts_with("transfer.conc.") {
+    // concurrent outcomes concern both properties; "a resume is accepted only before cancellation" is a clause
+    // of C13 as well as of C11
+    if sig.starts_with("transfer.conc.") || sig == "transfer.cancel.resume_accepted" {
         return true;
     }
     if RING_FAMILY.load(std::sync::atomic::Ordering::Relaxed) { c13 } else { !c13 }
